@@ -5,6 +5,7 @@ Everything measured here uses numpy on public attributes (tensor .data/.inds, si
 library's own operator-on-state route `ham.apply(psi)`; energies are logged as integers in units of 1e-7.
 """
 
+import inspect
 import warnings
 
 import numpy as np
@@ -241,10 +242,32 @@ class Recorder:
         import quimb.tensor.tn1d.dmrg as DM
         import quimb.tensor.tensor_core as TC
 
-        self._DM, self._TC = DM, TC
-        self._orig = (DM.DMRG.sweep, DM.DMRG._update_local_state, TC.Tensor.split)
+        import scipy.sparse.linalg as spla
+
+        self._DM, self._TC, self._spla = DM, TC, spla
+        # scipy >= 1.16: ARPACK draws its restart vectors from `rng` (fresh entropy when None); seed it per run
+        # and per call so that a check is reproducible for a given VERIF_SEED
+        self._oeigsh = spla.eigsh
+        if "rng" in inspect.signature(spla.eigsh).parameters:
+            oeigsh = spla.eigsh
+
+            def eigsh(*a, **kw):
+                c = rec.cur
+                if c is not None and kw.get("rng") is None:
+                    c["neigsh"] = c.get("neigsh", 0) + 1
+                    kw["rng"] = np.random.default_rng([int(c.get("solver_seed", 0)), c["neigsh"]])
+                return oeigsh(*a, **kw)
+
+            spla.eigsh = eigsh
+        self._orig = (DM.DMRG.sweep, DM.DMRG._update_local_state, TC.Tensor.split, DM.DMRG._eigs)
         rec = self
-        osweep, oupd, osplit = self._orig
+        osweep, oupd, osplit, oeigs = self._orig
+
+        def eigs(dm, A, B=None, v0=None):
+            c = rec.cur
+            if c is not None and c["dmrg"] is dm:
+                c["linop_used"] = not isinstance(A, np.ndarray)     # narrowing field for KF-C10-4 only
+            return oeigs(dm, A, B=B, v0=v0)
 
         def split(t, *args, **kw):
             c = rec.cur
@@ -295,7 +318,9 @@ class Recorder:
             pre = iso_defect(dm.state, i, bsz)       # the blocks the local problem is about to be formed from
             c["fail_noniso"] = bool(pre > 1e-3)
             first = bool(c["k"] == 1 and c["nupd"] == 0)
+            mixed = bool(any(np.iscomplexobj(t.data) for t in dm.state) and not any(np.iscomplexobj(t.data) for t in c["ham"]))
             c["svals"] = None
+            c["linop_used"] = False
             c["in_upd"] = True
             try:
                 out = oupd(dm, i, **update_opts)
@@ -334,6 +359,9 @@ class Recorder:
                  "rmax": int(min(bl * d, d * br)) if bsz == 2 else 0,
                  "full": bool(bl == d ** i and br == d ** (L - i - bsz)),
                  "pre9": qabs(pre, 1e-9), "noniso": bool(pre > 1e-3), "first": first,
+                 # narrowing fields for KF-C10-4: linear-operator path, real operator with a complex state
+                 "linop": bool(c["linop_used"]),
+                 "mixed": mixed,
                  # narrowing fields for KF-C10-1 (never used for a verdict)
                  "p0T": bool(c["cplx"] and first and complex(loc_en).real <= c["ep0T"] + 1e-6 * (1 + abs(c["ep0T"]))),
                  "tconj": bool(sane and rec._tconj(tot.real, m, normalised=(dw9 <= 10 and abs(1 - m.n) < 1e-6), unnorm=True))}
@@ -342,11 +370,14 @@ class Recorder:
 
         DM.DMRG.sweep = sweep
         DM.DMRG._update_local_state = upd
+        DM.DMRG._eigs = eigs
         TC.Tensor.split = split
         return self
 
     def __exit__(self, *a):
-        self._DM.DMRG.sweep, self._DM.DMRG._update_local_state, self._TC.Tensor.split = self._orig
+        (self._DM.DMRG.sweep, self._DM.DMRG._update_local_state, self._TC.Tensor.split,
+         self._DM.DMRG._eigs) = self._orig
+        self._spla.eigsh = self._oeigsh
         self.cur = None
         return False
 
@@ -370,9 +401,10 @@ class Recorder:
         r["bsz"] = c["bsz"]
         self.recs.append(r)
 
-    def arm(self, dmrg, ham, Hd, tid, cplx, d, ep0T=0.0):
+    def arm(self, dmrg, ham, Hd, tid, cplx, d, ep0T=0.0, solver_seed=0):
         self.cur = {"dmrg": dmrg, "ham": ham, "Hd": Hd, "tid": tid, "cplx": bool(cplx), "d": int(d),
-                    "ep0T": float(ep0T), "fail_noniso": False, "in_upd": False, "svals": None,
+                    "solver_seed": int(solver_seed), "neigsh": 0,
+                    "ep0T": float(ep0T), "fail_noniso": False, "in_upd": False, "svals": None, "linop_used": False,
                     "bsz": int(dmrg.bsz), "k": 0, "cap": -1, "cut12": 0, "nupd": 0, "lastdw9": 0}
 
     def disarm(self):
